@@ -2,7 +2,8 @@
    run_sched fuel sched (start s rpcs): the RPCs run as threads from state s; scheduling points are datastore primitive
    calls and lock acquisitions; `sched` is ANY list of thread ids (a disabled choice falls back to the first enabled). *)
 From VZ Require Import Base.Prelude Base.XFloat Model.Metadata Model.Service Model.ServiceEq Model.Conc
-                       Proofs.ConcP Proofs.DeadlockP Proofs.IsolationP.
+                       Proofs.ConcP Proofs.DeadlockP Proofs.IsolationP Proofs.LockCoverP.
+From VZ Require Gen.ServiceLocks Model.LockTable.
 
 (* no two trials with one id: for any number of concurrent calls, any schedule, any prefix *)
 Theorem C04_unique_ids_all_interleavings : forall prefix rpcs fuel sched,
@@ -22,6 +23,35 @@ Theorem C04_no_deadlock : forall s rpcs fuel sched,
   let c := run_sched fuel sched (start s rpcs) in all_finished c = false -> first_enabled c <> None.
 Proof. exact no_deadlock. Qed.
 Print Assumptions C04_no_deadlock.
+
+(* THE READ-MODIFY-WRITE SECTIONS ARE PROTECTED.  Static: in every handler every datastore call that writes trials, a study or
+   metadata is made while the per-study lock of that study is held, every call that writes a suggestion / early-stopping
+   operation while the operation lock is held, and a study is created under its owner's lock (study deletion is a single
+   datastore primitive and takes none).  Dynamic: under every schedule of any number of calls no lock is ever held by two
+   threads.  Together: two writes to one study never interleave. *)
+Theorem C04_writes_are_made_under_their_lock : forall r, covered [] (handler r).
+Proof. exact writes_are_covered. Qed.
+Print Assumptions C04_writes_are_made_under_their_lock.
+
+Theorem C04_mutual_exclusion : forall s rpcs fuel sched, exclusive (run_sched fuel sched (start s rpcs)).
+Proof. intros. apply mutual_exclusion. Qed.
+Print Assumptions C04_mutual_exclusion.
+
+(* THE SAME FACTS ABOUT THE SOURCE.  Gen/ServiceLocks.v is regenerated from vizier_service.py at every run: for every RPC
+   method its datastore call sites in source order with the servicer locks that lexically enclose them, and how its
+   with-statements nest.  Re-checked in the kernel on that table: every writing datastore call is made under its lock;
+   every read that feeds a rewrite (get_trial before update_trial, load_study before update_study, max_trial_id directly
+   before create_trial, the operation number before the operation record) is made under the same lock; the operation
+   lock is never taken inside another lock. *)
+Theorem C04_source_writes_under_lock : LockTable.writes_under_lock = true.
+Proof. vm_compute. reflexivity. Qed.
+Theorem C04_source_rmw_reads_under_lock : LockTable.rmw_reads_under_lock = true.
+Proof. vm_compute. reflexivity. Qed.
+Theorem C04_source_lock_order : LockTable.lock_order_ok = true.
+Proof. vm_compute. reflexivity. Qed.
+Theorem C04_source_all_rpc_methods_listed : List.length LockTable.methods_listed = 18.
+Proof. vm_compute. reflexivity. Qed.
+Print Assumptions C04_source_rmw_reads_under_lock.
 
 (* DIFFERENT STUDIES NEVER INTERFERE.  Two calls of any kind (except creation / deletion / listing of studies) that address
    different studies, started in any state, end with the same replies, the same owners and the same stored data under
